@@ -382,7 +382,31 @@ def inline_helpers(tree):
     return tree, inlined
 
 
+class _DropLocalAnnotations(ast.NodeTransformer):
+    """T11: `x: T = e` inside a function is `x = e`; `x: T` alone is nothing.
+    (Class-level annotated assignments are kept: the model reads them.)"""
+
+    def __init__(self):
+        self.depth = 0
+
+    def visit_FunctionDef(self, node):
+        self.depth += 1
+        self.generic_visit(node)
+        self.depth -= 1
+        return node
+
+    visit_AsyncFunctionDef = visit_FunctionDef
+
+    def visit_AnnAssign(self, node):
+        if self.depth == 0 or not isinstance(node.target, ast.Name):
+            return node
+        if node.value is None:
+            return ast.copy_location(ast.Pass(), node)
+        return ast.copy_location(ast.Assign(targets=[node.target], value=node.value), node)
+
+
 def normalize(tree):
+    tree = _DropLocalAnnotations().visit(tree)
     tree, inl1 = inline_helpers(tree)
     tree = Canon().visit(tree)
     ast.fix_missing_locations(tree)
